@@ -44,8 +44,11 @@ func verifLookupState() *verifLookup {
 	fr := verifFractions[verif.Choice("fractions", verif.Tiered(3, len(verifFractions)))]
 	L := verif.Int("limit")
 	verif.Assume(L >= 1 && L <= 1<<30)
-	a := NewLookupPartitionWithMetricRegistry("a", fr[0], 1, core.EmptyMetricRegistryInstance)
-	b := NewLookupPartitionWithMetricRegistry("b", fr[1], 1, core.EmptyMetricRegistryInstance)
+	// partitions created with an arbitrary initial total: the strategy must size them from its limit
+	pl := verif.Int("partition.initLimit")
+	verif.Assume(pl >= 1 && pl <= 1<<30)
+	a := NewLookupPartitionWithMetricRegistry("a", fr[0], int32(pl), core.EmptyMetricRegistryInstance)
+	b := NewLookupPartitionWithMetricRegistry("b", fr[1], int32(pl), core.EmptyMetricRegistryInstance)
 	s, err := NewLookupPartitionStrategyWithMetricRegistry(map[string]*LookupPartition{"a": a, "b": b}, nil, int32(L), core.EmptyMetricRegistryInstance)
 	verif.Assert("lookup-constructed", err == nil && s != nil)
 	v := &verifLookup{s: s, a: a, b: b, fa: fr[0], fb: fr[1], limit: L}
@@ -147,7 +150,9 @@ func VerifC03_Lookup_SetLimit() {
 //verif:harness property=C03 theory=real tier=quick
 func VerifC03_Lookup_AddRemove() {
 	v := verifLookupState()
-	c := NewLookupPartitionWithMetricRegistry("c", 0.2, 1, core.EmptyMetricRegistryInstance)
+	plc := verif.Int("partition.c.initLimit")
+	verif.Assume(plc >= 1 && plc <= 1<<30)
+	c := NewLookupPartitionWithMetricRegistry("c", 0.2, int32(plc), core.EmptyMetricRegistryInstance)
 	added := v.s.AddPartition("c", c)
 	verif.Assert("lookup-add-ok", added && !v.s.AddPartition("c", c))
 	verif.Assert("lookup-add-share", c.Limit() == verifShare(v.limit, 0.2))
@@ -327,5 +332,42 @@ func VerifC03_Matchers() {
 	verif.Assert("matcher-exact", matchers.StringPredicateMatcher("abc", false)(pctx) == (val == "abc"))
 	verif.Assert("matcher-insensitive", matchers.StringPredicateMatcher("abc", true)(pctx) == (val == "abc" || val == "ABC"))
 	verif.Assert("matcher-missing", !matchers.StringPredicateMatcher("abc", true)(context.Background()))
+	verif.Reach("end")
+}
+
+// VerifC03_Shares_ConcreteGrid: the tier-R share harnesses quantify over all limits for a few
+// fractions; this one pins the share formula max(1, ceil(limit x fraction)) bit-precisely on a grid
+// of awkward fractions (products a hair above an integer, e.g. 3 x 0.334 = 1.002) and limits, for
+// both partitioned strategies, after construction and after SetLimit.  All inputs are constants: the
+// executor folds the path and no solver query is needed - a pin against rewrites of the formula that
+// tier R cannot encode (e.g. one that rounds first made every tier-R obligation "unknown", which is
+// INCONCLUSIVE, not a verdict).  The bit-precise version with a symbolic limit in [1, 2^16] was tried
+// and is beyond the solvers (unknown at 60 s per fraction, all three back ends).
+//
+//verif:harness property=C03 theory=bv tier=quick unwind=80
+func VerifC03_Shares_ConcreteGrid() {
+	fractions := []float64{0.334, 0.3, 0.7, 0.1, 0.05, 0.999, 0.001, 0.3334, 0.5, 0.25}
+	limits := []int{1, 2, 3, 7, 10, 100, 503, 1000, 4096}
+	never := func(context.Context) bool { return false }
+	bad := 0
+	for _, f := range fractions {
+		la := NewLookupPartitionWithMetricRegistry("a", f, 1, core.EmptyMetricRegistryInstance)
+		ls, err1 := NewLookupPartitionStrategyWithMetricRegistry(map[string]*LookupPartition{"a": la}, nil, 1, core.EmptyMetricRegistryInstance)
+		pa := NewPredicatePartitionWithMetricRegistry("a", f, never, core.EmptyMetricRegistryInstance)
+		ps, err2 := NewPredicatePartitionStrategyWithMetricRegistry([]*PredicatePartition{pa}, 1, core.EmptyMetricRegistryInstance)
+		if err1 != nil || err2 != nil {
+			bad++
+			continue
+		}
+		for _, L := range limits {
+			ls.SetLimit(L)
+			ps.SetLimit(L)
+			want := verifShare(L, f)
+			if la.Limit() != want || pa.Limit() != want {
+				bad++
+			}
+		}
+	}
+	verif.Assert("share-is-max-1-ceil-limit-times-fraction-on-the-grid", bad == 0)
 	verif.Reach("end")
 }
